@@ -69,3 +69,9 @@ def fill(check, na):
           "400 of the wrap. Serial comparisons agree with RFC 1982 on every pair examined.",
           "Stream sequence origins are preset from outside on negotiated channels; origins are injected by replacing random32 in the SCTP module namespace.",
           "DESIGN.md 3/C17")
+    check("C09", "round-trip / fixed-point / idempotence oracles on SDP: library-generated descriptions of real RTCPeerConnection pairs, generated SessionDescription objects, and mutated accepted texts, with an independent line reader for field recovery",
+          "Held on the texts generated: every library-generated description is a fixed point of parse-then-serialise and every "
+          "listed field agrees with an independent reader of the text; generated objects come back field-equal; accepted mutated "
+          "texts are idempotent after one round; candidate lines and the signalling helper round-trip exactly. Sampled.",
+          "Connection addresses are IP literals except a dedicated host-name mutation; a parser rejection of a mutated text is not judged.",
+          "DESIGN.md 3/C09")
